@@ -205,7 +205,14 @@ def main(tier, seed, replay=None):
         node = tab.nodes[0]
         rows = c01.missing_rows(rs, list(range(n)), {v: [0, 1] for v in range(n)}, tier)
         X = np.array([G.np_row(c, n, {}) for c in rows], dtype=np.float32)
+        X0 = X.copy()
         Y = clt.mpe(X)
+        # the tree's own mpe has no in-place option: the caller's (single-precision, row-major) batch is neither written nor returned
+        if np.shares_memory(Y, X) or not np.array_equal(X, X0, equal_nan=True):
+            rep.violation(dict(kind="caller-array-modified-by-stand-alone-tree-mpe", clt=tab.brief(), dtype=str(X.dtype),
+                               shares_memory=bool(np.shares_memory(Y, X)), rows_before=np.where(np.isnan(X0), None, X0).tolist()[:6],
+                               rows_after=np.where(np.isnan(X), None, X).tolist()[:6]), True)
+            X = X0
         for x in X[:: max(1, len(X) // 8)]:
             bad = brute_clt(clt, x)
             if bad:
